@@ -151,6 +151,23 @@ fn native_callback_trampoline(
         &mut error_out,
     );
 
+    // The callback may hand one of the handles it was given straight back: take the value
+    // before those handles are released, and release each handle exactly once.
+    let returned_borrowed_handle =
+        !result.is_null() && (result == this_handle || arg_handles.contains(&result));
+    // An owned result handle stays alive (and keeps its object rooted) until the end of
+    // this function, when the value has been handed to the interpreter.
+    let owned_result = if result.is_null() || returned_borrowed_handle {
+        None
+    } else {
+        Some(unsafe { Box::from_raw(result) })
+    };
+    let result_value = if returned_borrowed_handle {
+        Some(unsafe { (*result).inner.value().clone() })
+    } else {
+        owned_result.as_ref().map(|r| r.inner.value().clone())
+    };
+
     // Clean up argument handles
     unsafe {
         drop(Box::from_raw(this_handle));
@@ -167,18 +184,15 @@ fn native_callback_trampoline(
         return Err(JsError::type_error(error_str));
     }
 
-    if result.is_null() {
-        Ok(Guarded::unguarded(JsValue::Undefined))
-    } else {
-        let result_val = unsafe { Box::from_raw(result) };
+    match result_value {
+        None => Ok(Guarded::unguarded(JsValue::Undefined)),
         // Create a guard for the result if it's an object
-        if let JsValue::Object(obj) = result_val.inner.value() {
+        Some(JsValue::Object(obj)) => {
             let guard = interp.heap.create_guard();
             guard.guard(obj.cheap_clone());
-            Ok(Guarded::with_guard(result_val.inner.value().clone(), guard))
-        } else {
-            Ok(Guarded::unguarded(result_val.inner.value().clone()))
+            Ok(Guarded::with_guard(JsValue::Object(obj), guard))
         }
+        Some(value) => Ok(Guarded::unguarded(value)),
     }
 }
 
